@@ -16,10 +16,29 @@ struct Short {
     len: usize,
     per_call: usize,
     fail_at: usize,
+    /// bytes swallowed before anything is counted: 0 under Kani (Header::write is stubbed out);
+    /// in the native replay build (no stubs) the length of the real header
+    skip: usize,
+}
+
+#[cfg(not(kv_replay))]
+fn header_bytes(_arr: &Array<f64>) -> usize {
+    0
+}
+#[cfg(kv_replay)]
+fn header_bytes(arr: &Array<f64>) -> usize {
+    let mut all = Vec::new();
+    write_array(&mut all, arr).unwrap();
+    all.len() - 8 * arr.elements()
 }
 
 impl Write for Short {
     fn write(&mut self, b: &[u8]) -> io::Result<usize> {
+        if self.skip > 0 {
+            let n = if b.len() < self.skip { b.len() } else { self.skip };
+            self.skip -= n;
+            return Ok(n);
+        }
         if self.len >= self.fail_at {
             return Err(io::Error::from_raw_os_error(5));
         }
@@ -51,6 +70,7 @@ fn values_case(per_call: usize) {
         len: 0,
         per_call,
         fail_at: usize::MAX,
+        skip: header_bytes(&arr),
     };
     let r = write_array(&mut w, &arr);
     assert!(r.is_ok());
@@ -105,6 +125,7 @@ macro_rules! write_fault_h {
                 len: 0,
                 per_call: 4,
                 fail_at: $f,
+                skip: header_bytes(&arr),
             };
             let r = write_array(&mut w, &arr);
             // a writer failure at any offset surfaces; never Ok with partial data
@@ -141,6 +162,7 @@ fn npy_values_roundtrip() {
         len: 0,
         per_call: usize::MAX,
         fail_at: usize::MAX,
+        skip: header_bytes(&arr),
     };
     let r = write_array(&mut w, &arr);
     assert!(r.is_ok());
